@@ -119,7 +119,7 @@ func monC16(c *child.Ctx, replay json.RawMessage) {
 			// hundreds of small reads while the recorder lags behind: nothing may be dropped
 			k.Hook = "@apps/rtcmlogger/main:writeRTCMLog:write=4000"
 			k.Size = r.Range(30000, 50000)
-			k.Stdin, k.Chunk, k.GapUs = "pipe", r.Range(90, 160), 0
+			k.Stdin, k.Chunk, k.GapUs = "pipe", r.Range(90, 160), -250 // every chunk arrives on its own
 		}
 		if i%50 == 17 {
 			// a filestore that takes more than a second over the last write: "recording
